@@ -47,9 +47,25 @@ inductive Item where
   | path        -- `h.Write([]byte(p))`: the path handed to the callback (not written today)
   deriving DecidableEq, Repr
 
+/-- The condition that sends a top-level symlink into the "managed by the repo" branch, as a boolean
+    expression over the three tests the code makes (regenerated from the `if` in `hash`). -/
+inductive CondE where
+  | relNeDest                  -- `rel != dest` (the root prefix was stripped from the destination)
+  | absDest                    -- `filepath.IsAbs(dest)`
+  | absPath                    -- `filepath.IsAbs(path)`
+  | tt
+  | not (a : CondE)
+  | and (a b : CondE)
+  | or (a b : CondE)
+  deriving DecidableEq, Repr
+
+/-- `(rel != dest || !filepath.IsAbs(dest)) && !filepath.IsAbs(path)`: the condition of the pinned code. -/
+def stdCond : CondE := .and (.or .relNeDest (.not .absDest)) (.not .absPath)
+
 /-- The write schema of `PathHasher.hash`, regenerated from the source. -/
 structure Schema where
   marker : Bytes               -- value of `boolTrueHashValue`
+  linkCond : CondE             -- when a top-level symlink counts as repo-managed
   topFile : List Item          -- final `else`: a plain file
   topLinkIn : List Item        -- top-level symlink whose destination is managed by the repo
   topLinkOut : List Item       -- top-level symlink to a system tool
@@ -112,12 +128,23 @@ def serDir (S : Schema) (path : Bytes) (t : Tree) : Bytes := (walk path t).flatM
 def linkManaged (root path dest : Bytes) : Bool :=
   (ensureRelative root dest != dest || !isAbs dest) && !isAbs path
 
+def evalCond (root path dest : Bytes) : CondE → Bool
+  | .relNeDest => ensureRelative root dest != dest
+  | .absDest => isAbs dest
+  | .absPath => isAbs path
+  | .tt => true
+  | .not a => !evalCond root path dest a
+  | .and a b => evalCond root path dest a && evalCond root path dest b
+  | .or a b => evalCond root path dest a || evalCond root path dest b
+
+theorem evalCond_std (root path dest : Bytes) : evalCond root path dest stdCond = linkManaged root path dest := rfl
+
 /-- `PathHasher.hash(path)` with `path` already relative: the pre-image.
     `ext` is the content of the file an out-of-repo symlink resolves to (only read in that branch). -/
 def hashPre (S : Schema) (root path ext : Bytes) : Tree → Bytes
   | .symlink dest =>
     let rel := ensureRelative root dest
-    if linkManaged root path dest then
+    if evalCond root path dest S.linkCond then
       S.topLinkIn.flatMap fun | .marker => S.marker | .target => rel | .content => ext | .path => path
     else
       S.topLinkOut.flatMap fun | .marker => S.marker | .target => rel | .content => ext | .path => path
